@@ -32,6 +32,8 @@ def with_parts(rng, cfg):
         for row in cfg["batch"][: len(cfg["batch"]) // 2]:
             row[0] = c0
         cfg["res"] = [({(1,) + (0,) * (nv - 1): 1, (0,) * nv: -c0}, 0) for _ in cfg["res"]]
+    if rng.random() < 0.25 and not cfg.get("obs", {}).get("arows"):
+        cfg["het_c"] = prand(rng, nv, 2, 2) or {(0,) * nv: 3}
     if rng.random() < 0.25 and not cfg.get("reweight"):
         cfg["omit_unit_weights"] = True           # weights equal to 1 are left to their documented default
         if not isinstance(cfg["w_dyn"], list) and rng.random() < 0.5:
@@ -107,6 +109,8 @@ def jsonable(c):
     out = dict(c, upolys=[pj(p) for p in c["upolys"]], res=[[pj(q), a] for q, a in c["res"]])
     if c.get("ic") and "polys" in c["ic"]:
         out["ic"] = dict(polys=[pj(p) for p in c["ic"]["polys"]])
+    if c.get("het_c"):
+        out["het_c"] = pj(c["het_c"])
     return out
 
 
@@ -115,6 +119,8 @@ def unjson(c):
     out = dict(c, upolys=[pu(p) for p in c["upolys"]], res=[(pu(q), a) for q, a in c["res"]])
     if c.get("ic") and "polys" in c["ic"]:
         out["ic"] = dict(polys=[pu(p) for p in c["ic"]["polys"]])
+    if c.get("het_c"):
+        out["het_c"] = pu(c["het_c"])
     return out
 
 
@@ -149,7 +155,7 @@ def generate(tier, seed, casedir, variant):
             continue
         k = f"{cfg['kind']}_{'vecw' if isinstance(cfg['w_dyn'], list) else 'scalarw'}_{len(cfg['res'])}comp"
         dist[k] = dist.get(k, 0) + 1
-        for p in ("ic", "norm", "obs", "dk", "omit_unit_weights", "no_lw"):
+        for p in ("ic", "norm", "obs", "dk", "omit_unit_weights", "no_lw", "het_c"):
             if cfg.get(p):
                 dist[p] = dist.get(p, 0) + 1
         if terms.get("dyn_loss", 0.0) != 0.0 and len(cfg["batch"]) > 1:
